@@ -523,7 +523,10 @@ def tabulate(schema, dataset):
             if m == "mean":
                 data = per_cell(mean)
             elif m == "sum":
-                data = [sum(v * w for v, w in vals) if vals else NA for vals in cellvals]
+                # the server sends 0 for the sum over an empty cell (see the repo's sum
+                # fixtures); "sum_empty": "na" gives the rarer {"?": -8} form
+                empty = NA if numeric.get("sum_empty") == "na" else 0
+                data = [sum(v * w for v, w in vals) if vals else empty for vals in cellvals]
             elif m == "stddev":
                 data = per_cell(sd)
             elif m == "median":
